@@ -362,12 +362,17 @@ fn dumps_job(dir: &str, prop: &str, tier: &str, cap: u64) -> Value {
     let mut unbound: Vec<Value> = vec![];
     let mut missing = 0u64;
     std::panic::set_hook(Box::new(|_| {}));
+    // the macro managed to expand these, so the in-process pipeline should too; if it does not
+    // return, end with a HANG line rather than blocking the check
+    start_watchdog(30_000, 8_000);
     for (gid, (g, i)) in flat.iter().enumerate() {
         let spec = &gs[*g].specs[*i];
         let Ok(text) = std::fs::read_to_string(format!("{dir}/L{gid}.dump")) else {
             missing += 1;
             continue;
         };
+        CUR_JOB.store(gid as i64, Ordering::SeqCst);
+        JOB_STARTED_MS.store(now_ms(), Ordering::SeqCst);
         // dump equality with our own orchestration
         let mine = std::panic::catch_unwind(|| px_compile::compile_text(&px_compile::lexer_text(spec, &format!("L{gid}")), false));
         match mine {
@@ -412,6 +417,7 @@ fn dumps_job(dir: &str, prop: &str, tier: &str, cap: u64) -> Value {
             }
         }
     }
+    CUR_JOB.store(-1, Ordering::SeqCst);
     let mut j = agg.to_json();
     j["distinct_dumps"] = json!(agg.dump_hashes.len());
     j.as_object_mut().unwrap().remove("dump_hashes");
